@@ -7,6 +7,7 @@ CONSTANTS
   TTLs <- TTLsGc
   MaxImports = 0
   Gen = FALSE
+  Dev = "none"
 VIEW mcview
 INVARIANT INV_Read INV_ReadExact INV_Get INV_Head INV_Dump INV_Bad INV_EphNeverStored
 PROPERTY C08_NoEarlyLoss C01_AppendIdsIncrease
